@@ -120,6 +120,36 @@ scenarios! {
             acc
         })
     }
+    "sample: arithmetic operators of the custom-width integer types (I11, U11, I20, U20, I24, U24, I48, U48)" => |seed, n| {
+        steady(|| seed | 1, |s| {
+            use dasp_sample::types::{I11, I20, I48, U11, U20, U24};
+            let mut acc = 0u64;
+            macro_rules! ops {
+                ($T:ident, $rep:ty, $lim:expr) => {{
+                    // operands small enough that every result is in range (the debug-assertions build panics on overflow)
+                    let a = $T::new((1 + xs(s) % $lim) as $rep).unwrap();
+                    let b = $T::new((1 + xs(s) % $lim) as $rep).unwrap();
+                    let r = (a + b) * b - a;
+                    let q = (r / b) % a + (a & b) + (a | b) + (a ^ b) + (b << $T::new(1).unwrap()) + (a >> $T::new(1).unwrap());
+                    mix(&mut acc, q.inner() as u64 + (a < b) as u64 + (a == b) as u64);
+                }};
+            }
+            for _ in 0..n {
+                ops!(I11, i16, 20);
+                ops!(U11, i16, 20);
+                ops!(I20, i32, 300);
+                ops!(U20, i32, 300);
+                ops!(I24, i32, 1000);
+                ops!(U24, i32, 1000);
+                ops!(I48, i64, 100_000);
+                ops!(U48, i64, 100_000);
+                let m = -I24::new((xs(s) % 5000) as i32 - 2500).unwrap();
+                let k = -I48::new((xs(s) % 5000) as i64 - 2500).unwrap() * I48::new(3).unwrap();
+                mix(&mut acc, m.inner() as u64 ^ k.inner() as u64);
+            }
+            acc
+        })
+    }
     "frame: map, zip_map, offset/scale, add/mul_amp, conversions, channels, from_fn, from_samples" => |seed, n| {
         steady(|| seed | 1, |s| {
             let mut acc = 0u64;
@@ -192,7 +222,7 @@ scenarios! {
                     3 => { mix(&mut acc, a.pop().unwrap_or(0) as u64 + v.pop().unwrap_or(0) as u64 + m.pop().unwrap_or(0) as u64); }
                     4 => { for e in a.iter().chain(v.iter()).chain(b.iter()) { mix(&mut acc, *e as u64); } let (p, q) = v.slices(); mix(&mut acc, (p.len() + q.len()) as u64); }
                     5 => { for e in a.iter_mut() { *e = e.wrapping_add(1); } if let Some(e) = v.get_mut(0) { *e ^= 1; } mix(&mut acc, a.get(k % 8).copied().unwrap_or(9) as u64 + if b.len() > 0 { b[0] as u64 } else { 0 }); }
-                    _ => { for e in b.drain().take(2) { mix(&mut acc, e as u64); } a.extend([x, x + 1].iter().cloned()); let (p, _) = a.slices_mut(); if let Some(e) = p.first_mut() { *e = 5; } }
+                    _ => { for e in b.drain().take(2) { mix(&mut acc, e as u64); } a.extend([x, x + 1].iter().cloned()); v.extend((0..12u32).filter(|i| i % 5 != 0)); let (p, _) = a.slices_mut(); if let Some(e) = p.first_mut() { *e = 5; } }
                 }
                 mix(&mut acc, (a.len() + v.len() + b.len() + m.len()) as u64 + a.is_full() as u64 + v.is_empty() as u64 + b.max_len() as u64);
             }
@@ -206,7 +236,7 @@ scenarios! {
             for k in 0..n {
                 let x = fv(s) as f32;
                 mixf(&mut acc, a.push(x) as f64);
-                mix(&mut acc, v.push([k as i16, -(k as i16)])[0] as u64 + b.push(k as u8) as u64);
+                mix(&mut acc, v.push([k as i16, (k as i16).wrapping_neg()])[0] as u64 + b.push(k as u8) as u64);
                 if k % 5 == 0 { a.set_first(k); v.set_first(k + 1); }
                 mixf(&mut acc, *a.get(k) as f64 + a[k + 3] as f64);
                 *a.get_mut(k + 1) = 0.5;
@@ -217,6 +247,8 @@ scenarios! {
                 let (p, q) = b.slices(); mix(&mut acc, (p.len() * 10 + q.len()) as u64);
                 let (p, _) = a.slices_mut(); if let Some(e) = p.first_mut() { *e *= 0.5; }
                 if k % 11 == 0 { b.extend([1u8, 2, 3, 4].iter().cloned()); }
+                // iterators without a known length, shorter and longer than the buffer
+                if k % 13 == 0 { a.extend((0..40u32).filter(|i| i % 3 == 0).map(|i| i as f32 * 0.01)); v.extend((0..9i16).filter(|i| i % 4 != 1).map(|i| [i, -i])); b.extend(std::iter::from_fn(|| None)); }
                 mix(&mut acc, (a.len() + v.len() + b.len()) as u64);
             }
             acc
